@@ -191,6 +191,48 @@ def decomposeTriangle [CommRing R] (cfg : Cfg R) {m : ℕ} (U : Matrix (Fin m) (
     (sols : List (Sol R)) : Option (St R m) :=
   run cfg (initSt U sols) (cells m)
 
+/-! ### the retry loop of `Circuit.decomposition` (`while count < max_try`)
+
+Every attempt is handed the SAME array object `U`.  `decompose_triangle` works on it in place until it first
+rebinds its local name (`u = RI @ u`: PERM substitution or solved block, a fresh array); a failed `solve`
+returns before anything is written for its cell.  What an attempt leaves in the shared array is therefore
+`u[n, j] = 0` for the maximal prefix of cells that took the identity-skip branch (`leadingSkipsV`) — entries
+the threshold test called negligible.  Nothing else of an abandoned attempt (its partially reduced matrix,
+its component list) may reach the next one. -/
+
+/-- the in-place writes of one attempt on the array shared by all attempts -/
+def leadingSkipsV [Zero R] (cfg : Cfg R) {m : ℕ} : MatV R m m → List (ℕ × ℕ) → MatV R m m
+  | M, [] => M
+  | M, c :: cs =>
+    if cfg.small (getN M.toMatrix c.2 c.1) && cfg.ignoreId then
+      leadingSkipsV cfg (MatV.ofMatrix (zeroAt M.toMatrix c.2 c.1)) cs
+    else M
+
+/-- the shared array after one attempt (whether it failed or not) -/
+def inPlace [Zero R] (cfg : Cfg R) {m : ℕ} (U : Matrix (Fin m) (Fin m) R) : Matrix (Fin m) (Fin m) R :=
+  (leadingSkipsV cfg (MatV.ofMatrix U) (cells m)).toMatrix
+
+/-- `while count < max_try: lc = decompose_triangle(U, …); if lc is not None: return …; count += 1`.
+One list of solver results per attempt (`attempts.length = max_try`); `leave V` is what an attempt started on
+`V` leaves in the shared array (the code: `inPlace cfg`). -/
+def retry [CommRing R] (cfg : Cfg R) {m : ℕ}
+    (leave : Matrix (Fin m) (Fin m) R → Matrix (Fin m) (Fin m) R) :
+    Matrix (Fin m) (Fin m) R → List (List (Sol R)) → Option (St R m)
+  | _, [] => none
+  | U, s :: rest =>
+    match decomposeTriangle cfg U s with
+    | some st => some st
+    | none => retry cfg leave (leave U) rest
+
+/-- the retry loop of the code as it is -/
+def decompositionRetry [CommRing R] (cfg : Cfg R) {m : ℕ} (U : Matrix (Fin m) (Fin m) R)
+    (attempts : List (List (Sol R))) : Option (St R m) :=
+  retry cfg (inPlace cfg) U attempts
+
+/-- `U'` is `U` with some entries the threshold test calls negligible replaced by 0 -/
+def ZeroedSmall [Zero R] (cfg : Cfg R) {m : ℕ} (U U' : Matrix (Fin m) (Fin m) R) : Prop :=
+  ∀ a b, U' a b = U a b ∨ (U' a b = 0 ∧ cfg.small (U a b) = true)
+
 /-! ### `add_phases` -/
 
 /-- `add_phases(phase_shifter_fn, D)`: `for idx in range(len(D)): if keep(D[idx]): phases = [(idx, PS)] + phases`
